@@ -68,6 +68,8 @@ def gen(rng):
         # small min_freq so that the crafted modalities survive the base discretization; thresholds on the size grid
         cfg["min_freq"] = rng.choice([0.02, 0.05])
         cfg["min_freq_mod"] = rng.choice([None, 0.05, 0.1, 0.125, 0.2, 0.25])
+        if ds.get("hint_min_freq_mod") is not None and rng.random() < 0.8:
+            cfg["min_freq_mod"] = ds["hint_min_freq_mod"]      # the threshold the fine-mode sizes were built around
     return {"ds": ds, "meta": {"what": "carver", "target": target, "cfg": cfg, "kinds": ds["kinds"], "n": len(ds["X"]),
                                "dev": ds["X_dev"] is not None}}
 
